@@ -38,6 +38,12 @@ Section PRF.
   Definition masterFromPreMasterSecret_bytes (fuel : nat) (pms cr sr : list byte) : outcome (list byte) :=
     prf12 fuel (N.to_nat gen_masterSecretLength) pms gen_masterSecretLabel_bytes (cr ++ sr).
 
+  (* finishedHash.clientSum / serverSum for the versions whose PRF is prf12: verify_data =
+     PRF(master_secret, finished_label, Hash(handshake_messages))[0..finishedVerifyLength-1] *)
+  Definition finishedSum_bytes (fuel : nat) (client : bool) (ms transcript_hash : list byte) : outcome (list byte) :=
+    prf12 fuel (N.to_nat gen_finishedVerifyLength) ms
+          (if client then gen_clientFinishedLabel_bytes else gen_serverFinishedLabel_bytes) transcript_hash.
+
   (* the six slices of keysFromMasterSecret *)
   Definition key_slices (km : list byte) (macLen keyLen ivLen : nat)
     : list byte * list byte * list byte * list byte * list byte * list byte :=
